@@ -138,7 +138,7 @@ def gen_timeframe(rng, step: int) -> Tuple[str, int]:
     """A timeframe string and its length in seconds, usually a few stream steps long."""
     cands = []
     for u, s in UNITS.items():
-        for m in (1, 2, 3, 4, 5, 7, 10, 15, 30, 45):
+        for m in (1, 2, 3, 4, 5, 7, 10, 15, 30, 45, 90, 120, 240, 300, 1440):   # also amounts of three and four digits
             cands.append((f"{u}{m}", s * m))
     near = [c for c in cands if step <= c[1] <= 12 * step]
     pool = near if near and rng.random() < 0.8 else cands
